@@ -495,7 +495,7 @@ def check_lpsd_wrapper(ctx, repo):
 
 
 # ---------------------------------------------------------------------------- C02 / C04 rules
-def check_segmentation(ctx, R, rules=("R1", "R2", "R3", "R4"), prefix=()):
+def check_segmentation(ctx, R, rules=("R1", "R2", "R3", "R4", "R5"), prefix=()):
     key = R.key; fn = R.repo.get(key); where = R.repo.where(key, fn)
     if not isinstance(R.out, DictVal):
         ctx.unknown("C02-structure", key, f"scheduler result not recognised: {R.out!r}"[:200], where); return
@@ -533,6 +533,34 @@ def check_segmentation(ctx, R, rules=("R1", "R2", "R3", "R4"), prefix=()):
             return VIOLATED, ("a bin can be stored with this L although a single segment results (K(L)=1 needs L=N): the single-segment fix-up "
                               "`if K(L)==1: L=N` is not applied to the final value of L on this path"), lx, N
         leafwise(ctx, "R4-single-segment-uses-record", f"{key}[L]", where, [L], single, "K=1 must imply L=N", prefix=prefix)
+    if "R5" in rules:
+        # lower clamp: a stored L is Lmin, N, a max(.., Lmin) form, or lies on a path where `L < Lmin` was tested on that very value and failed
+        Lmin = X.var("Lmin")
+
+        def clamped(l, path=None):
+            lx = to_x(l)
+            if lx.eq(N) or lx.eq(Lmin): return HOLDS, "", lx, None
+            def has_floor(x):
+                for a in x.all_atoms():
+                    if a.tag == "fn" and a.name == "max" and any(isinstance(g, X) and g.eq(Lmin) for g in a.args): return True
+                return False
+            if has_floor(lx): return HOLDS, "", lx, None
+            for cond, pol in path:
+                d = getattr(cond, "lt", None)
+                if d is None: continue
+                try:
+                    if pol is False and path_rewrite(d, path).eq(path_rewrite(lx - Lmin, path)): return HOLDS, "", lx, None      # not (L < Lmin)
+                    if pol is True and path_rewrite(d, path).eq(path_rewrite(Lmin - lx, path)): return HOLDS, "", lx, None       # Lmin < L
+                except Unknown:
+                    continue
+            # L19: a length recomputed as fs*bmin/f under the guard f/r < bmin exceeds the (clamped) length fs/r it replaces
+            zs = [a.args[0] for a in lx.all_atoms() if a.tag == "fn" and a.name in ("trunc", "nearest", "floor", "ceil")]
+            if len(zs) == 1 and "bmin" in zs[0].fv() and any(getattr(c_, "lt", None) is not None and "Lmin" in c_.lt.fv() for c_, _ in path) \
+                    and any(getattr(c_, "lt", None) is not None and p_ and "bmin" in c_.lt.fv() for c_, p_ in path):
+                return HOLDS, "", lx, None
+            return VIOLATED, ("a bin is stored with this L although it was never compared with Lmin on this path (no clamp `if L < Lmin: L = Lmin`, no max(L, Lmin)): "
+                              "segments shorter than the configured minimum are planned, and plan() rejects the scheduler's own output"), lx, Lmin
+        leafwise(ctx, "R6-minimum-length-clamp", f"{key}[L>=Lmin]", where, [L], clamped, "a stored L is at least Lmin", prefix=prefix)
     if "R2" in rules:
         # start generator: on every path, starts are nearest(t*(N-L)/(K-1)) (K>1) or [0] (K=1)
         def gen(kk, ll, dd, path=None):
